@@ -55,7 +55,13 @@ func NewEngine(repo, verifDir string) (*Engine, error) {
 			continue
 		}
 		pkg := strings.TrimSuffix(e.Name(), ".go")
-		repoFile := filepath.Join(repo, "lib", pkg, "zz_verif_contracts.go")
+		repoName := "zz_verif_contracts.go"
+		if i := strings.Index(pkg, "_"); i > 0 {
+			// <pkg>_<part>.go: a further contract file of the same package
+			repoName = "zz_verif_contracts_" + pkg[i+1:] + ".go"
+			pkg = pkg[:i]
+		}
+		repoFile := filepath.Join(repo, "lib", pkg, repoName)
 		src := repoFile
 		if _, err := os.Stat(repoFile); err != nil || os.Getenv("CSVQVC_CONTRACTS") == "mirror" {
 			src = filepath.Join(mirror, e.Name())
@@ -397,7 +403,19 @@ func (eng *Engine) modifiesKeys(c *FuncContract, fn *ssa.Function) *WriteSet {
 		vars[p.Name()] = freshValue("scratch."+p.Name(), p.Type())
 	}
 	env := &Env{ex: ex, vars: vars, st: st, old: st, pkg: eng.pkgByName[c.Pkg]}
+	nErr := len(eng.bindingErrors)
 	ex.havocModifies(st, c, env, nil)
+	if len(eng.bindingErrors) > nErr {
+		// the clause names things only visible inside the function (captured variables of a closure, locals):
+		// fall back on the static write set of the body
+		eng.bindingErrors = eng.bindingErrors[:nErr]
+		if fn.Blocks != nil {
+			return eng.wa.bodyWrites(fn)
+		}
+		w := newWriteSet()
+		w.setAll("modifies clause of " + c.Key + " cannot be evaluated outside the function")
+		return w
+	}
 	w := newWriteSet()
 	if st.heap.base != base {
 		w.setAll("modifies * of " + c.Key)
@@ -577,6 +595,31 @@ func (eng *Engine) specFootprint(sf *SpecFunc) []string {
 	}
 	sort.Strings(keys)
 	return keys
+}
+
+// callersOf: repository functions with a direct call to the function with the given short name.
+func (eng *Engine) callersOf(callee string) []string {
+	var out []string
+	for fn := range ssautil.AllFunctions(eng.prog) {
+		if !eng.isRepoFunc(fn) || fn.Blocks == nil || fn.Synthetic != "" {
+			continue
+		}
+		found := false
+		for _, b := range fn.Blocks {
+			for _, in := range b.Instrs {
+				if c, ok := in.(ssa.CallInstruction); ok {
+					if sc := c.Common().StaticCallee(); sc != nil && shortName(sc.String()) == callee {
+						found = true
+					}
+				}
+			}
+		}
+		if found {
+			out = append(out, shortName(fn.String()))
+		}
+	}
+	sort.Strings(out)
+	return out
 }
 
 func dedup(xs []string) []string {
